@@ -23,7 +23,7 @@ import (
 
 func (dec *Decoder) stringToFloat32(s string) float32 {
 	f, err := strconv.ParseFloat(s, 32)
-	if err != nil {
+	if err != nil && dec.Error == nil {
 		dec.Error = err
 	}
 	return float32(f)
@@ -31,7 +31,7 @@ func (dec *Decoder) stringToFloat32(s string) float32 {
 
 func (dec *Decoder) stringToFloat64(s string) float64 {
 	f, err := strconv.ParseFloat(s, 64)
-	if err != nil {
+	if err != nil && dec.Error == nil {
 		dec.Error = err
 	}
 	return f
